@@ -7,18 +7,21 @@ import Lean.Data.Json
 import CxxModel.Driver
 open Lean
 
-partial def loop (h : IO.FS.Stream) (out : IO.FS.Stream) : IO Unit := do
-  let line ← h.getLine
-  if line.isEmpty then return ()
-  let res : Json :=
-    match Json.parse line with
-    | .error e => Json.mkObj [("error", Json.str s!"bad json: {e}")]
-    | .ok j => Cxx.Driver.handle j
-  out.putStrLn res.compress
-  loop h out
+/-- at most `fuel` lines (structural recursion: no `partial`) -/
+def loop (h : IO.FS.Stream) (out : IO.FS.Stream) : Nat → IO Unit
+  | 0 => return ()
+  | fuel + 1 => do
+    let line ← h.getLine
+    if line.isEmpty then return ()
+    let res : Json :=
+      match Json.parse line with
+      | .error e => Json.mkObj [("error", Json.str s!"bad json: {e}")]
+      | .ok j => Cxx.Driver.handle j
+    out.putStrLn res.compress
+    loop h out fuel
 
 def main : IO Unit := do
   let stdin ← IO.getStdin
   let stdout ← IO.getStdout
-  loop stdin stdout
+  loop stdin stdout 4000000000
   stdout.flush
